@@ -14,6 +14,12 @@ TRUSTED = [
     "translator/c07.py (python ast -> Gen_C07.v `src_cfg`): which rows create_params of the three modes builds, how "
     "_run_pipelines_array_to_datatree binds the tuple to the keys, which mapping it zips, whether "
     "_get_short_dimension_names_new / _get_parameter_types keep the order of the enabled steps; fails closed",
+    "translator/c07_norm.py (round 2c): the normal form the rows are read in -- private helpers of the same module / class "
+    "inlined, single-assignment aliases / named intermediates / module constants substituted (only when nothing they "
+    "mention is re-bound, stored to or mutated in between), guard clauses, inverted tests with swapped branches, "
+    "conditional expressions, loops filling a fresh container vs comprehensions vs dict(zip()), match vs if/elif, "
+    "try/else-return; annotations, docstrings, asserts, imports and logging are not read.  That these rewrites preserve "
+    "behaviour is believed (self-test `python -m translator.c07_norm`: 22 equivalent / look-alike pairs)",
     "translator/c07.py, pickle rows (`src_pickle_hooks`): for every class with __getstate__/__setstate__ under "
     "pyxel/{pipelines,detectors,data_structure,outputs,exposure,observation,calibration} how each attribute __init__ sets "
     "comes back (AWhole / ARecreated / ARebuilt kept / AMissing), whether the class has a __deepcopy__ of its own; that a "
@@ -779,7 +785,8 @@ META = dict(
         "after an evolution vs. an in-thread reference evolution), DaskBFE values -- compared inside Coq against the "
         "model and against the specification."),
     level_note=(
-        "Trusted: Coq kernel + vm_compute; translator/c07.py (what it extracts is believed; it fails closed); the "
+        "Trusted: Coq kernel + vm_compute; translator/c07.py + translator/c07_norm.py (what is extracted, and that the "
+        "normal form the functions are read in preserves behaviour, is believed; unknown shapes fail closed); the "
         "correspondence harness and probes; pandas/xarray/dask/pygmo/ThreadPoolExecutor behaviour as modelled (dask "
         "computes every chunk once and places it by index: a hypothesis of the theorems, sampled incl. an execution "
         "counter, not proved); runs are functions of their own copy (C06). The shared-generator defect is a theorem "
